@@ -59,6 +59,9 @@ type aliasOp[T any] struct {
 	ok         func(vals []*T, extra any) bool                // optional precondition on the drawn values
 }
 
+// argArena holds the read-only arguments of the distinct-storage run (nil if mmap failed).
+var argArena, _ = newROArena(2)
+
 func runAlias[T any](c *Ctx, r *gen.Rand, at aliasType[T], op aliasOp[T], part []int, opIdx int) {
 	n := op.nargs + 1
 	nb := 0
@@ -106,9 +109,25 @@ func runAlias[T any](c *Ctx, r *gen.Rand, at aliasType[T], op aliasOp[T], part [
 	for i := range dpos {
 		dbefore[i] = at.snap(dpos[i])
 	}
+	// distinct-storage run: every argument that the method may only read lives in read-only
+	// memory while the method runs ("arguments are never modified" observed exactly: a store
+	// that is undone before returning is invisible to the snapshots below, not to the MMU)
+	if argArena != nil {
+		argArena.reset()
+		for i := 1; i < n; i++ {
+			if i != op.writesArg {
+				dpos[i] = placeRO(argArena, dpos[i])
+			}
+		}
+		argArena.protect(true)
+		c.Tally("calls with their read-only arguments in read-only memory")
+	}
 	var dret, aret *T
 	var dout, aout string
 	pvd := catch(func() { dret, dout = op.run(dpos, extra) })
+	if argArena != nil {
+		argArena.protect(false)
+	}
 	pva := catch(func() { aret, aout = op.run(apos, extra) })
 	partS := fmt.Sprint(part)
 	c.Eval(true, []byte(at.tname+"."+op.name), []byte(partS), []byte(before[0]), []byte(before[nb-1]), []byte(fmt.Sprint(extra)))
